@@ -76,6 +76,9 @@ func c03Run(p c03Params) func() {
 			network = "tcp"
 		}
 		R, T := mc.Duration(p.R)*ms, mc.Duration(p.T)*ms
+		if p.allStatus || p.everyPair {
+			defer logChoice()()
+		}
 		sock := fakesock.New(network)
 		gw := NewGateway(sock, c03Channel)
 		firstTx := map[string]mc.Duration{}
